@@ -5523,6 +5523,10 @@ class PyCdlib:
             # Rule 9
             raise pycdlibexception.PyCdlibInvalidInput('A Joliet path can only be specified for a Joliet ISO')
 
+        # The symlink is added to one filesystem after the other, so make sure
+        # up front that the Joliet and UDF parts are possible.
+        self._check_new_joliet_udf_paths(joliet_path, udf_symlink_path)
+
         # Checks complete, we can go on to make the symlink.
 
         num_bytes_to_add = 0
